@@ -532,9 +532,12 @@ pub fn gen_cell(rng: &mut Rng) -> (f64, f64, f64, &'static str) {
         1 => rng.logmag(-2.0, 2.0),
         _ => rng.range(0.5, 12.0),
     };
-    let ratio = match rng.below(5) {
+    // the optimiser keeps the ratio in [0.1, 1]; a deserialised cell may have any ratio
+    let ratio = match rng.below(7) {
         0 => 0.1,
         1 => 1.0,
+        2 => rng.range(1.0, 5.0),
+        3 => *rng.pick(&[2.0, 1.5, 10.0, 0.05]),
         _ => rng.range(0.1, 1.0),
     };
     let fam = *rng.pick(&FAMILIES);
@@ -697,7 +700,7 @@ pub fn gen_cfg(rng: &mut Rng) -> String {
         _ => rng.below(1 << 20),
     };
     let conv = match rng.below(4) {
-        0 => Some(*rng.pick(&[1e-3, 1e-6, 0.1, 0.0, 10.0])),
+        0 => Some(*rng.pick(&[1e-3, 1e-6, 0.1, 0.0, 10.0, -1e-3, f64::NAN, f64::INFINITY, f64::NEG_INFINITY])),
         _ => None,
     };
     format!("{} {} {} {} {} {} {} {}", steps, inner, fhex(kt_start), ofh(kt_finish), ofh(kt_ratio), fhex(max_step), seed, ofh(conv))
@@ -930,7 +933,7 @@ pub fn gen_cli_req(rng: &mut Rng, threads: &str) -> String {
         5 => ("Hard", "circle".to_string()),
         6 => ("LJ", "circle".to_string()),
         7 => ("Hard", format!("trimer {} {} {}", fhex(0.637556), fhex(120.0), fhex(1.0))),
-        8 => ("LJ", format!("trimer {} {} {}", fhex(0.637556), fhex(120.0), fhex(1.0))),
+        8 => ("LJ", format!("trimer {} {} {}", fhex(*rng.pick(&[0.637556, 1.0, 0.8, 1.2])), fhex(120.0), fhex(1.0))),
         _ => ("Hard", format!("trimer {} {} {}", fhex(rng.range(0.4, 1.0)), fhex(rng.range(60.0, 180.0)), fhex(rng.range(0.8, 1.4)))),
     };
     format!(
